@@ -156,6 +156,13 @@ SameCodes(C, v, r) ==
   (IF SlotSame(C, v.r, r.r, FALSE) THEN {} ELSE {<<"C01.root", 0>>})
   \cup (IF Len(v.n) # Len(r.n) THEN {<<"C01.shape", Len(r.n)>>}
         ELSE {<<"C01.node", i>> : i \in {j \in 1..Len(v.n) : ~NodeSame(C, v.n[j], r.n[j])}})
+(* a map of an unnamed Go type outside a typed destination comes back as a generic map with the same   *)
+(* entries: NodeSame lets it pass, but it is not the same dynamic type - reported under its own code   *)
+(* by the round-trip clause (the recorded finding KF-C01-genericMap)                                   *)
+GenericMapCodes(C, v, r) ==
+  IF Len(v.n) # Len(r.n) THEN {}
+  ELSE {<<"C01.genericMap", i>> : i \in {j \in 1..Len(v.n) :
+          v.n[j].k = "map" /\ r.n[j].k = "map" /\ v.n[j].t # r.n[j].t /\ NodeSame(C, v.n[j], r.n[j])}}
 
 HasBad(v) == \/ v.r.k = "bad"
              \/ \E i \in 1..Len(v.n) :
